@@ -20,7 +20,10 @@
 (* Variant "asfound": parseCustom wraps import AND call in one try whose   *)
 (* `except ImportError` marks the module as missing, and getProcedureDesc  *)
 (* does the same with a bare except (deviation D10).  "repaired": only a   *)
-(* failing import marks a module as missing.                               *)
+(* failing import marks a module as missing.  "osrc_by_component": the     *)
+(* wrapper's cache keyed by the component of the reference code instead of *)
+(* the resolved module name - a BC code and a BD code of one component     *)
+(* then share a slot (m1 and m2 stand for such a pair).                    *)
 (***************************************************************************)
 EXTENDS Naturals, Sequences, FiniteSets
 
@@ -29,7 +32,7 @@ CONSTANTS Mods,            \* module names that exist
           Variant,
           MaxHistory
 
-Caches == {"ud", "src", "co"}
+Caches == {"ud", "src", "co", "osrc"}
 Behs == {"ok", "nondict", "none", "raise", "importerror"}
 Names == Mods \cup Absent
 
@@ -42,7 +45,7 @@ RuleResult(it) ==
            [] it.cache = "src" ->
                  (CASE it.beh \in {"ok", "nondict"} -> "plugin"
                     [] OTHER -> "nodetails")
-           [] it.cache = "co" ->
+           [] it.cache \in {"co", "osrc"} ->
                  (CASE it.beh \in {"ok", "nondict"} -> "plugin"
                     [] OTHER -> "nodetails")
 RuleAbsent(it) == IF it.cache = "ud" THEN "dump" ELSE "nodetails"
@@ -66,16 +69,25 @@ Poisons(it) ==           \* does a failing CALL mark the module as missing?
     /\ \/ it.cache = "ud" /\ it.beh = "importerror"
        \/ it.cache = "co" /\ it.beh \in {"raise", "importerror"}
 
+\* the slot of the cache an item uses: the module name - except in the deviation where the BMC
+\* wrapper keys by component and the two modules of one component (m1, m2) share m1's slot
+FirstMod == CHOOSE m \in Mods : TRUE
+Key(it) == IF Variant = "osrc_by_component" /\ it.cache = "osrc" /\ it.mod \in Mods THEN FirstMod ELSE it.mod
+
 \* one consultation, as the code does it
 ImplStep(it, c) ==
-    LET st == c[it.cache][it.mod]
+    LET k == Key(it)
+        st == c[it.cache][k]
         missing == RuleAbsent(it)
     IN  IF st = "none" THEN [result |-> missing, cache |-> c]
         ELSE IF it.mod \in Absent
-             THEN [result |-> missing, cache |-> [c EXCEPT ![it.cache][it.mod] = "none"]]
-        ELSE LET c1 == [c EXCEPT ![it.cache][it.mod] = "module"] IN
+             THEN [result |-> missing, cache |-> [c EXCEPT ![it.cache][k] = "none"]]
+        ELSE LET c1 == [c EXCEPT ![it.cache][k] = "module"] IN
              IF Poisons(it)
-             THEN [result |-> missing, cache |-> [c EXCEPT ![it.cache][it.mod] = "none"]]
+             THEN [result |-> missing, cache |-> [c EXCEPT ![it.cache][k] = "none"]]
+             ELSE IF st = "module" /\ k # it.mod
+                  THEN \* the slot holds the OTHER module of this component: that one is called instead
+                       [result |-> "wrong module", cache |-> c1]
              ELSE [result |-> RuleResult(it), cache |-> c1]
 
 Decode(it) ==
